@@ -151,6 +151,16 @@ SetCol(i, c) == /\ Plain(i) /\ c \in DOMAIN heap[i].cols /\ NRows(heap[i]) > 0 /
                               ELSE [heap[j] EXCEPT !.cols = [x \in DOMAIN heap[j].cols |->
                                                      IF heap[j].aid[x] = id THEN [k \in 1..NRows(heap[j]) |-> Unknown] ELSE heap[j].cols[x]]]]
                 /\ last' = [a |-> "SetCol", i |-> i, c |-> c]
+(* t['a'] = <full-length array of another dtype kind> : the cells become 8 (whether the implementation writes in place or replaces   *)
+(* the array is its business: every column that may share the old array becomes Unknown and MAY still share it with the assigned one) *)
+SetColArr(i, c) == /\ Plain(i) /\ c \in DOMAIN heap[i].cols /\ NRows(heap[i]) > 0 /\ UNCHANGED naid
+                   /\ LET id == heap[i].aid[c] IN
+                      heap' = [j \in 1..Len(heap) |->
+                                 IF j = i THEN [heap[j] EXCEPT !.cols[c] = [k \in 1..NRows(heap[j]) |-> 8]]
+                                 ELSE IF heap[j].kind = "transposed" THEN heap[j]
+                                 ELSE [heap[j] EXCEPT !.cols = [x \in DOMAIN heap[j].cols |->
+                                                        IF heap[j].aid[x] = id THEN [k \in 1..NRows(heap[j]) |-> Unknown] ELSE heap[j].cols[x]]]]
+                   /\ last' = [a |-> "SetColArr", i |-> i, c |-> c]
 (* t['z'] = 5 : a scalar entry *)
 SetScalar(i) == /\ Plain(i) /\ "z" \notin heap[i].sc /\ UNCHANGED naid
                 /\ heap' = [heap EXCEPT ![i].sc = @ \cup {"z"}] /\ last' = [a |-> "SetScalar", i |-> i]
@@ -167,6 +177,7 @@ Next == /\ depth < MaxDepth
              \/ Copy(i) \/ Transpose(i)
              \/ NewCol(i) \/ SetScalar(i)
              \/ \E c \in {"a", "b"} : SetCol(i, c)
+             \/ SetColArr(i, "b")
 
 Spec == Init /\ [][Next]_vars
 
